@@ -9,9 +9,11 @@ package vsched
 import (
 	"fmt"
 	"hash/fnv"
+	"os"
 	"runtime"
 	"runtime/debug"
 	"sort"
+	"strconv"
 	"sync"
 )
 
@@ -159,8 +161,18 @@ func NumCPU() int {
 	if cur != nil && cur.opt.NumCPU > 0 {
 		return cur.opt.NumCPU
 	}
+	if initNumCPU > 0 {
+		return initNumCPU
+	}
 	return runtime.NumCPU()
 }
+
+// initNumCPU (environment VSCHED_NUMCPU) is what NumCPU answers outside an execution, i.e. during the
+// package initialisation of instrumented code, so that a limiter sized there matches Options.NumCPU.
+var initNumCPU = func() int {
+	n, _ := strconv.Atoi(os.Getenv("VSCHED_NUMCPU"))
+	return n
+}()
 
 // SetStateDigest installs a harness-side digest that is mixed into the state fingerprint.
 func SetStateDigest(f func() uint64) {
